@@ -34,6 +34,8 @@ type Observer interface {
 	OnRequest(r *Replica, kind string, pack *change.Pack)
 	// OnResponse is called with the raw response pack before it is applied.
 	OnResponse(r *Replica, kind string, req *change.Pack, pb *api.ChangePack, err error)
+	// OnApplied is called after a response pack was applied to the document.
+	OnApplied(r *Replica, kind string, pack *change.Pack)
 }
 
 // Replica is one client + one document.
@@ -150,6 +152,9 @@ func (r *Replica) AttachDoc(ctx context.Context, d *document.Document, o AttachO
 	if err != nil {
 		return err
 	}
+	r.Doc = d
+	r.DocKey = d.Key()
+	r.DisableGC = o.DisableGC
 	if r.Obs != nil {
 		r.Obs.OnRequest(r, "attach", reqPack)
 	}
@@ -188,6 +193,9 @@ func (r *Replica) AttachDoc(ctx context.Context, d *document.Document, o AttachO
 	r.DisableGC = o.DisableGC
 	if err := d.ApplyChangePack(pack); err != nil {
 		return fmt.Errorf("apply attach response: %w", err)
+	}
+	if r.Obs != nil {
+		r.Obs.OnApplied(r, "attach", pack)
 	}
 	if d.Status() == attachable.StatusRemoved {
 		return nil
@@ -268,6 +276,9 @@ func (r *Replica) SyncEnd() error {
 	if err := r.Doc.ApplyChangePack(pack); err != nil {
 		return fmt.Errorf("apply pushpull response: %w", err)
 	}
+	if r.Obs != nil {
+		r.Obs.OnApplied(r, "pushpull", pack)
+	}
 	return nil
 }
 
@@ -320,6 +331,9 @@ func (r *Replica) Detach(ctx context.Context) error {
 	}
 	if err := d.ApplyChangePack(pack); err != nil {
 		return fmt.Errorf("apply detach response: %w", err)
+	}
+	if r.Obs != nil {
+		r.Obs.OnApplied(r, "detach", pack)
 	}
 	if d.Status() != document.StatusRemoved {
 		d.SetStatus(document.StatusDetached)
